@@ -161,17 +161,11 @@ class ReturnDefault(PathFacts):
             self.hits.append((stmt, state))
 
 
-def run(cx):
+def bind_rule(cx, rid_bind="C08-BIND", rid_map="C08-MAP", only=None, floor=300):
     pm = mod(PARSER)
     am = mod("transpile/ast.py")
     cx.consulted(pm)
     cx.consulted(am)
-    cx.explanation = (
-        "for every parser arm that builds an IR node from a user call, the arm's argument prologue is evaluated "
-        "abstractly (tokens for 'the text of positional argument i / keyword k', None, defaults) for EVERY call shape "
-        "the host signature (read from the AST of the host class) accepts, and the token bound to each IR field is "
-        "compared with Python's own binding; resolver contracts and the Core-helper binder are checked separately"
-    )
     ir_fields = {}
     for cname, c in am.classes.items():
         ir_fields[cname] = [st.target.id for st in c.body if isinstance(st, ast.AnnAssign) and isinstance(st.target, ast.Name)]
@@ -192,10 +186,10 @@ def run(cx):
                 if isinstance(c, ast.Call) and isinstance(c.func, ast.Attribute) and c.func.attr == "append" and norm(c.func.value) == "body" and c.args and isinstance(c.args[0], ast.Call) and isinstance(c.args[0].func, ast.Name):
                     built.append(c.args[0].func.id)
             arms.append((rx, arm, sorted(set(built))))
-    cx.extra["arms"] = len(arms)
+    cx.extra.setdefault("arms", len(arms))
 
-    r = cx.rule("C08-BIND", "for every call shape accepted by the host signature the arm either rejects the call or binds each IR field to the argument Python binds to the corresponding parameter (omitted parameters get the host default)", floor=300, exhaustive=True)
-    rmap = cx.rule("C08-MAP", "every IR class built from a user call is mapped to its host callable and every parameter of that callable (other than host-only simulation parameters) is bound into an IR field", floor=40)
+    r = cx.rule(rid_bind, "for every call shape accepted by the host signature the arm either rejects the call or binds each IR field to the argument Python binds to the corresponding parameter (omitted parameters get the host default)", floor=floor, exhaustive=True)
+    rmap = cx.rule(rid_map, "every IR class built from a user call is mapped to its host callable and every parameter of that callable (other than host-only simulation parameters) is bound into an IR field", floor=(40 if only is None else 1))
     shapes_total = 0
     undecided = []
     for rx, arm, built in arms:
@@ -204,6 +198,8 @@ def run(cx):
             continue
         ngroups = re.compile(pat.pattern).groups
         for cls in built:
+            if only is not None and not any(cls.startswith(p) for p in only):
+                continue
             if cls not in HOST:
                 if cls in ("VarDecl", "VarAssign", "ExprStmt", "IfStatement", "WhileLoop", "ForRangeLoop", "TryStatement", "BreakStmt", "ReturnStmt"):
                     continue
@@ -279,6 +275,18 @@ def run(cx):
     stray = sorted(set(undecided) - VALUE_FIELDS)
     if stray:
         raise AnalysisError(f"binding of IR field(s) {stray} is no longer decidable by the abstract evaluator (the arm left the recognised binding idiom)")
+
+
+
+def run(cx):
+    pm = mod(PARSER)
+    cx.explanation = (
+        "for every parser arm that builds an IR node from a user call, the arm's argument prologue is evaluated "
+        "abstractly (tokens for 'the text of positional argument i / keyword k', None, defaults) for EVERY call shape "
+        "the host signature (read from the AST of the host class) accepts, and the token bound to each IR field is "
+        "compared with Python's own binding; resolver contracts and the Core-helper binder are checked separately"
+    )
+    bind_rule(cx)
 
     # ---- C08-RESOLVER ------------------------------------------------------------------------
     r = cx.rule("C08-RESOLVER", "an argument resolver returns its default only when the argument is absent (None/blank): never because of the supplied value (0, False, '')", floor=8)
